@@ -542,4 +542,119 @@ theorem parse_cases (db : CodecDB) (given : Option Bytes) (b : Bytes) :
       exact parseBody_cases db given b true (Slice_magic_of_slice h2)
     · left; exact ⟨.magic, by simp only [h1, h2, if_false]⟩
 
+/-! ### a total codec never yields a decode error (the checker's second attempt with ISO-8859-1) -/
+
+theorem dec_total {db : CodecDB} {enc : Bytes} (ht : ∀ bs, (db.decode enc bs).isSome) (x : Bytes) :
+    dec db enc x ≠ .error .decode := by
+  unfold dec
+  have := ht x
+  cases h : db.decode enc x with
+  | none => rw [h] at this; cases this
+  | some t => simp
+
+theorem decAll_total {db : CodecDB} {enc : Bytes} (ht : ∀ bs, (db.decode enc bs).isSome) (xs : List Bytes) :
+    decAll db enc xs ≠ .error .decode := by
+  induction xs with
+  | nil => simp [decAll]
+  | cons x xs ih =>
+    rcases dec_cases db enc x with ⟨t, h⟩ | h
+    · rcases decAll_cases db enc xs with ⟨ts, h'⟩ | h'
+      · simp [decAll, h, h']
+      · exact absurd h' ih
+    · exact absurd h (dec_total ht x)
+
+theorem decodeEntry_total {db : CodecDB} {enc : Bytes} (ht : ∀ bs, (db.decode enc bs).isSome) (e : CatEntry) :
+    decodeEntry db enc e ≠ .error .decode := by
+  obtain ⟨ctxt, msgid, plural, forms⟩ := e
+  have hc : decOpt db enc ctxt ≠ .error .decode := by
+    cases ctxt with
+    | none => simp [decOpt]
+    | some c =>
+      rcases dec_cases db enc c with ⟨t, h⟩ | h
+      · simp [decOpt, h]
+      · exact absurd h (dec_total ht c)
+  rcases decOpt_cases db enc ctxt with ⟨c, h1⟩ | h1
+  · rcases dec_cases db enc msgid with ⟨m, h2⟩ | h2
+    · cases plural with
+      | none =>
+        rcases dec_cases db enc (CatEntry.value ⟨ctxt, msgid, none, forms⟩) with ⟨v, h3⟩ | h3
+        · simp [decodeEntry, h1, h2, h3]
+        · exact absurd h3 (dec_total ht _)
+      | some p =>
+        rcases dec_cases db enc p with ⟨q, h3⟩ | h3
+        · rcases decAll_cases db enc forms with ⟨fs, h4⟩ | h4
+          · simp [decodeEntry, h1, h2, h3, h4]
+          · exact absurd h4 (decAll_total ht _)
+        · exact absurd h3 (dec_total ht _)
+    · exact absurd h2 (dec_total ht _)
+  · exact absurd h1 hc
+
+theorem selectEncoding_given {db : CodecDB} {enc : Bytes} (hc : db.asciiCompatible enc = true) (k v : Bytes) :
+    selectEncoding db (some enc) k v = enc := by
+  simp [selectEncoding, hc]
+
+theorem loop_no_decode (db : CodecDB) {enc : Bytes} (hc : db.asciiCompatible enc = true)
+    (ht : ∀ bs, (db.decode enc bs).isSome) {be : Bool} {b : Bytes} {ko to : Nat} :
+    ∀ (n i : Nat) (l : Option Bytes), loop db be b ko to n i ⟨some enc, l⟩ ≠ .error .decode := by
+  intro n
+  induction n with
+  | zero => intro i l; simp [loop]
+  | succ n ih =>
+    intro i l
+    rcases parseEntry_cases db be b ⟨some enc, l⟩ i (ko + 8 * i) (to + 8 * i) with ⟨x, hx⟩ | ⟨e, hwf, hk, hv⟩
+    · simp [loop, hx]
+    · have hspec := parseEntry_spec db hk hv hwf ⟨some enc, l⟩ i
+      simp only [loop, hspec, entryResult, selectEncoding_given hc]
+      by_cases hi : i = 0
+      · simp only [hi, if_true]
+        rcases decodeEntry_cases db enc (swapCtxt e) with ⟨d, hd⟩ | hd
+        · simp only [hd]
+          have := ih (0 + 1) (some e.key0)
+          cases hl : loop db be b ko to n (0 + 1) ⟨some enc, some e.key0⟩ with
+          | ok es => simp
+          | error x => rw [hl] at this; simp; exact fun h => this (by rw [h])
+        · exact absurd hd (decodeEntry_total ht _)
+      · simp only [hi, if_false]
+        cases l with
+        | none => simp
+        | some last =>
+          simp only
+          cases hb : bytesLt e.key0 last with
+          | true => simp
+          | false =>
+            rcases decodeEntry_cases db enc (swapCtxt e) with ⟨d, hd⟩ | hd
+            · simp only [hd, Bool.false_eq_true, if_false]
+              have := ih (i + 1) (some e.key0)
+              cases hl : loop db be b ko to n (i + 1) ⟨some enc, some e.key0⟩ with
+              | ok es => simp
+              | error x => rw [hl] at this; simp; exact fun h => this (by rw [h])
+            · exact absurd hd (decodeEntry_total ht _)
+
+theorem parse_no_decode (db : CodecDB) {enc : Bytes} (hc : db.asciiCompatible enc = true)
+    (ht : ∀ bs, (db.decode enc bs).isSome) (b : Bytes) : parse db (some enc) b ≠ .error .decode := by
+  have hbody : ∀ be, parseBody db (some enc) b be ≠ .error .decode := by
+    intro be
+    rw [parseBody_eq]
+    rcases read1_cases be b 4 with ⟨_, hr⟩ | ⟨rev, _, hr⟩
+    · simp [hr]
+    by_cases hmaj : rev / 65536 > 1
+    · simp [hr, hmaj]
+    rcases read1_cases be b 8 with ⟨_, hr8⟩ | ⟨n, _, hr8⟩
+    · simp [hr, hmaj, hr8]
+    rcases hiddenStep_cases be b (rev % 65536) with hh | ⟨hid, hh, _⟩
+    · simp [hr, hmaj, hr8, hh]
+    rcases read2_cases be b 12 with ⟨_, hr12⟩ | ⟨ko, to, _, _, hr12⟩
+    · simp [hr, hmaj, hr8, hh, hr12]
+    have := loop_no_decode db hc ht (be := be) (b := b) (ko := ko) (to := to) n 0 none
+    simp only [hr, hmaj, if_false, hr8, hh, hr12]
+    cases hl : loop db be b ko to n 0 ⟨some enc, none⟩ with
+    | ok es => simp
+    | error x => rw [hl] at this; simp; exact fun h => this (by rw [h])
+  unfold parse
+  by_cases h1 : slice b 0 4 = leMagic
+  · simp only [h1, if_true]; exact hbody false
+  · by_cases h2 : slice b 0 4 = beMagic
+    · simp only [h2, (Ne.symm magic_ne), if_false, if_true]; exact hbody true
+    · simp [h1, h2]
+
 end I18n.Mo
